@@ -468,7 +468,11 @@ class _InternalBaseTracer(_InternalBaseTracerSuper, metaclass=MetaTracerStateMac
                 if my_ret is not None and existing_ret is not None:
                     return self._make_composed_tracer(existing_ret)
                 elif my_ret is None:
-                    return existing_ret
+                    # this frame is not ours, but stay between the interpreter and the existing
+                    # tracer's local function: user code may still uninstall it with sys.settrace(None)
+                    if existing_ret is None:
+                        return None
+                    return self._make_composed_tracer(existing_ret)
                 elif my_ret is self.sys_tracer and existing_tracer is not None:
                     # the existing tracer declined this frame: trace it for our handlers only
                     return self._make_composed_tracer(None)
